@@ -123,6 +123,82 @@ class Store:
             self._verify(ctx, path, "str", None, implicit=True)
         return outcome
 
+    def save_after_header(self, ctx, kindname, value, path, header, fault):
+        """The client opens a file itself, writes (and flushes) some text of its own, and hands the open handle - now
+        positioned past offset 0 - to the library's save function; later it reads its own text back and hands the
+        handle, positioned where the document starts, to the load function.  The bytes in front of the position
+        belong to the caller: no outcome of the save - success, reported error, crash - may touch them."""
+        kind = self.kinds[kindname]
+        fs = self.fs
+        h = fs.open(path, "w")
+        h.write(header)
+        h.flush()
+        hb = header.encode("utf-8")
+        fs.begin_call(fault)
+        err, crashed = None, False
+        try:
+            try:
+                kind.save(value, h)
+                ctx.called(f"save:{kindname}:positioned-handle")
+                lib_closed = h.closed
+                if not h.closed:
+                    h.flush()
+            except SimCrash:
+                crashed = True
+            except Exception as e:  # noqa: BLE001
+                err = e
+        finally:
+            fired = fs.end_call()
+            if crashed:
+                fs.recover()
+            elif not h.closed:
+                try:
+                    h.close()
+                except Exception:  # noqa: BLE001
+                    pass
+        for f in fired:
+            ctx.fault(f[0])
+        content = fs.files.get(path, b"")
+        ctx.probe("positioned-handle-save")
+        if not content.startswith(hb):
+            ctx.fail("wrong-data", f"{kindname}:caller-bytes-before-handle-position",
+                     f"the caller wrote {hb!r} and handed the handle over at offset {len(hb)}; after the save "
+                     f"({'crash' if crashed else ('error ' + type(err).__name__ if err is not None else 'returned')}; injected: "
+                     f"{[f[0] for f in fired]}) the file starts with {content[:len(hb) + 20]!r}")
+        if crashed or err is not None:
+            if not fired and err is not None and not kind.may_refuse(value):
+                ctx.fail("unexpected-reject", f"save:{kindname}:{type(err).__name__}{kind.tag(value)}",
+                         f"fault-free save of a valid {kindname} to a positioned handle raised {type(err).__name__}: {err}")
+            ctx.log("save_after_header", "crash" if crashed else f"error:{type(err).__name__}", kind=kindname, fired=[f[0] for f in fired])
+            return "failed"
+        bad = [f for f in fired if f[0] != "short_read"]
+        if bad:
+            ctx.fail("swallowed-error", f"save:{kindname}:{bad[0][0]}",
+                     f"save to a positioned handle returned normally although injected {bad[0][0]} fired")
+        if lib_closed:
+            ctx.fail("handle-closed", f"save:{kindname}", "library closed a caller-owned handle")
+        # read back: own text first, then the library's document from where it starts
+        h2 = fs.open(path, "r")
+        own = h2.read(len(header))
+        ok_, loaded = True, None
+        try:
+            loaded = kind.load(h2)
+        except Exception as e:  # noqa: BLE001
+            ok_, loaded = False, e
+        finally:
+            if not h2.closed:
+                h2.close()
+        if own != header or not ok_:
+            ctx.fail("lost-ack", f"load:{kindname}:{type(loaded).__name__ if not ok_ else 'header'}:positioned-handle{kind.tag(value)}",
+                     f"{kindname} saved through a handle positioned after {header!r} cannot be read back from that position: "
+                     f"{loaded!r}; file: {content[:120]!r}")
+        with judge(ctx, "compare-exception"):
+            diff = kind.same(ctx, value, loaded)
+        if diff is not None:
+            ctx.fail("wrong-data", f"{kindname}:{diff.split(':')[0]}", f"round trip through a positioned handle changed the {kindname}: {diff}")
+        ctx.log("save_after_header", "ok", kind=kindname, size=len(content))
+        return "ok"
+
     def external_write(self, ctx, kindname, value, path, text):
         """The client itself writes the JSON text of the value's dictionary form to the path (no library save
         function involved) - then the library's loader must return the value."""
